@@ -5,6 +5,7 @@ import (
 	"sort"
 	"strconv"
 	"strings"
+	"sync"
 	"testing"
 	"time"
 
@@ -322,6 +323,59 @@ func TestVerifTimingWheel(t *testing.T) {
 				}
 			})
 			return vrt.Step{Canon: s.canon(), Terminal: s.stopped}
+		})
+	}
+}
+
+// Callbacks run on their own goroutine, one per tick: a callback that is still running when
+// later ticks fire their tasks must not disturb them.  Every interleaving of two ticks'
+// task batches (and of setting a further timer meanwhile) within the bound: each key fires
+// exactly once, with its own value.
+func TestVerifTimingWheelSlowCallbacks(t *testing.T) {
+	defer vrt.WriteReport()
+	if !vrt.Shard(3) {
+		return
+	}
+	bound := 2
+	if vrt.Thorough() {
+		bound = 3
+	}
+	for _, slots := range []int{2, 4} {
+		slots := slots
+		vrt.Explore(vrt.Options{Name: fmt.Sprintf("timingwheel/slow-callbacks/slots=%d", slots), Bound: bound, Prune: true, Budget: vrt.FairBudget(2)}, func(r *vrt.Run) {
+			tk := timex.NewFakeTicker()
+			var mu sync.Mutex
+			fired := map[string][]string{}
+			w, err := newTimingWheelWithClock(twInterval, slots, func(k, v any) {
+				vrt.Yield() // a callback that takes its time
+				mu.Lock()
+				fired[fmt.Sprint(k)] = append(fired[fmt.Sprint(k)], fmt.Sprint(v))
+				mu.Unlock()
+			}, tk)
+			if err != nil {
+				r.Failf("constructor: %v", err)
+				return
+			}
+			w.SetTimer("a1", "va1", twInterval)
+			w.SetTimer("a2", "va2", twInterval)
+			w.SetTimer("b1", "vb1", 2*twInterval)
+			w.SetTimer("b2", "vb2", 2*twInterval)
+			vrt.Settle()
+			tk.Tick()
+			tk.Tick()
+			w.SetTimer("c1", "vc1", twInterval)
+			vrt.Settle()
+			tk.Tick()
+			vrt.Settle()
+			mu.Lock()
+			defer mu.Unlock()
+			r.Outcome("%v", len(fired))
+			for _, k := range []string{"a1", "a2", "b1", "b2", "c1"} {
+				if len(fired[k]) != 1 || fired[k][0] != "v"+k {
+					r.Failf("timer %s fired %d time(s) with value(s) %v, want exactly once with v%s (all: %v)", k, len(fired[k]), fired[k], k, fired)
+				}
+			}
+			w.Stop()
 		})
 	}
 }
